@@ -54,13 +54,14 @@ def run(ctx, replay):
     for i in res["bad"]:
         e = used[i - 1]
         rec = dict(app=e["app"], kind="returned-while-write-in-progress" if e["returned_while_write_blocked"] else
-                   ("did-not-return" if not e["returned"] else "output-incomplete-at-return"))
+                   ("did-not-return" if not e["returned"] else
+                    ("output-never-written" if not e["ref_matches_expected"] and e["complete_at_return"] else "output-incomplete-at-return")))
         ctx.violation(rec, dict(event=e, app=e["app"], case=caselist.get(e["id"])))
     return ctx.finish(
         level="model_checking",
         rule="one case = (application, input with at least one message, which Write call of the output writer is blocked: last, last-1, .., first, second ..); "
              "the blocked writer forces the schedule of the Apps.tla counterexample (close channel and return while a write is in progress); a reference run "
-             "without blocking gives the complete output; non-trivial = the reference run performs at least one Write",
+             "without blocking gives the output to compare with, which itself must equal the expected output computed from the real stream handler run sequentially; non-trivial = the reference run performs at least one Write",
         assumptions=["'returned early' is judged while a Write call is provably still blocked (no timing assumption); 'does not return early' is judged after 300 ms of a blocked write",
                      "the applications' entry points are exercised in-process through `go test -overlay` (package main), the repository is not modified"],
         exhaustive=False)
